@@ -227,7 +227,29 @@ func init() {
 	}
 }
 
-var expectedProbes = map[string][]string{}
+// expectedProbes: rare conditions each check is meant to reach; one that stays at zero in a run is
+// listed in the evidence under reach_probes_at_zero (a reason to change the workload, not a failure).
+var expectedProbes = map[string][]string{
+	"C01": {"interleaved-step", "sharing-cotenant-dropped-port", "pool-renamed", "modeA-release-probe", "counters-checked"},
+	"C02": {"assignment-event", "modeA-fresh-automatic-allocation", "pool-renamed", "prefer-dual-completion"},
+	"C03": {"status-stability-checked", "frame-checked", "forced-resync", "pool-renamed"},
+	"C06": {"recorded-address-checked-after-restart", "recorded-address-adopted", "event-dropped-before-initial-load", "releasing-write-failed"},
+	"C07": {"pending-service-at-quiescence", "sharing-cotenant-dropped-port", "releasing-write-failed"},
+	"C11": {"counters-checked", "rebuild-compared", "modeA-release-probe", "pool-renamed"},
+	"C04": {"quiescence-checked", "node-first-sight", "sharers-with-different-eligible-sets"},
+	"C05": {"bgp-routes-expected-on-a-session", "bgp-several-routes-on-a-session", "bgp-peer-not-selecting-the-node", "service-reported-as-advertised-to-peers"},
+	"C09": {"fresh-speaker-compared", "quiescence-checked"},
+	"C10": {"bgp-eligible-node-service-pair", "bgp-eligible-under-local-policy", "bgp-ineligible-node-service-pair-with-address"},
+	"C12": {"announcer-moved", "announcer-moved-because-the-owner-left", "announcer-kept-although-the-eligible-set-changed"},
+	"C18": {"fork-reconcile", "fork-accepted-configuration-compared", "config-update-filtered"},
+	"C13": {"history-linearizable", "query-answered", "query-unanswered", "frame-that-must-be-ignored", "gratuitous-frame", "refcounts-checked"},
+	"C14": {"applied-configuration-interpreted", "conflicting-set-refused", "reloader-read-torn-file"},
+	"C15": {"resource-interpreted", "reconcile-error-requeue"},
+	"C16": {"open-accepted", "open-rejected", "prefix-len-0", "prefix-len-32", "withdraw-received"},
+	"C17": {"converged", "converged-after-faults", "converged-on-a-reconnected-session", "connection-lost-in-the-middle-of-an-update-sequence", "set-while-not-established", "empty-set-requested", "silence-after-close-checked"},
+	"C19": {"attempt-after-a-failed-signal", "attempt-coalesces-2-or-more-submissions", "attempt-while-a-submission-is-in-flight", "re-apply-request-from-the-validator", "identical-resubmission", "converged-after-faults"},
+	"C20": {"serial-replay-compared", "listener-lock-handed-to-a-different-worker", "status-query-overlapping-a-handler-in-flight"},
+}
 
 var selftestVariants = map[string][]string{
 	"kctl": {"", "faults=on", "crashat", "modeA"},
